@@ -80,8 +80,14 @@ def apply(arm, tr, op, rnd):
     k = op[0]
     out = []
     with contextlib.redirect_stdout(io.StringIO()):
-        if k == 'FK':
-            th = np.array(op[1], dtype=float)
+        if k in ('FK', 'FKedge'):
+            if k == 'FKedge':      # inside the limits except for ONE joint, which leaves them on one side by a small or large amount
+                th = tr.spec.mins + np.array(op[1], dtype=float) * (tr.spec.maxs - tr.spec.mins)
+                j = op[2] % tr.spec.n
+                th[j] = (tr.spec.mins[j] - op[4]) if op[3] else (tr.spec.maxs[j] + op[4])
+            else:
+                th = np.array(op[1], dtype=float)
+            tr.last_theta = th.copy()
             T = arm.FK(th.copy()).gTM()
             tr.theta = clamp(th, tr.spec)
             want = tr.fk(th)
@@ -119,10 +125,12 @@ def rand_history(rnd, spec, L):
     ops = []
     n = spec.n
     for _ in range(L):
-        k = rnd.choice(['FK', 'FK', 'FK', 'IK', 'IKfree', 'move', 'move', 'moveS', 'setHome', 'restore', 'randomPos'])
+        k = rnd.choice(['FK', 'FK', 'FKedge', 'FKedge', 'IK', 'IKfree', 'move', 'move', 'moveS', 'setHome', 'restore', 'randomPos'])
         th = lambda s=2 * math.pi: [rnd.uniform(-s, s) for _ in range(n)]
         if k == 'FK':
             ops.append(('FK', th()))
+        elif k == 'FKedge':
+            ops.append(('FKedge', [rnd.random() for _ in range(n)], rnd.randrange(n), rnd.random() < 0.5, rnd.choice([1e-3, 0.05, 0.1, 0.5])))
         elif k in ('IK', 'IKfree'):
             g = th(1.5)
             ops.append((k, g, [x + rnd.uniform(-0.05, 0.05) for x in g] if rnd.random() < 0.7 else th(1.5)))
@@ -138,7 +146,7 @@ def rand_history(rnd, spec, L):
 def run_history(cfg):
     rnd = random.Random(cfg['seed'])
     try:
-        arm, spec = armh.build(rnd, cfg['arm'], cfg['base6'])
+        arm, spec = armh.build(rnd, cfg['arm'], cfg['base6'], limits='random')
     except Exception as e:
         return [('raises:constructor:%s' % type(e).__name__, 'Arm(...) raised %r' % (e,))], 0
     tr = Tracker(spec)
@@ -162,8 +170,8 @@ def run_history(cfg):
         viol += check_state(arm, tr, op[0])
         th_now = np.asarray(arm._theta, dtype=float).reshape(-1).copy()
         k = op[0]
-        if k == 'FK':
-            lines.append('arm.op FK ' + H(op[1]))
+        if k in ('FK', 'FKedge'):
+            lines.append('arm.op FK ' + H(tr.last_theta))
         elif k in ('IK', 'IKfree', 'randomPos'):
             lines.append('arm.op %s %s' % (k, H(th_now)))              # the solver's / sampler's answer is the oracle input
         elif k == 'move':
